@@ -204,6 +204,10 @@ def handwritten_docs():
 
 # ------------------------------------------------------------------ the check
 def run(ctx, args):
+    wmax = int(os.environ.get("VERIF_TLC_WORKERS", "0") or 0)      # optional cap on TLC workers (loaded machines)
+    if wmax:
+        tlc0 = ctx.tlc
+        ctx.tlc = lambda *a, **kw: tlc0(*a, **dict(kw, workers=min(wmax, kw.get("workers") or wmax)))
     harness = inproc(ctx)
     ctx.harness_bin = harness
     if args.replay:
@@ -549,6 +553,9 @@ def run(ctx, args):
              "documents whose real AST was compared with the TLC-computed expectation",
         assumptions=["requiredness written inside throws(...) is not compared (the parser deliberately stores optional there)",
                      "include statements with an empty or repeated path, cpp_type, and literals with raw line breaks are outside the universe",
+                     "literal contents in which a backslash stands immediately before a quote character (raw \\\\\" or \\\\') are outside the "
+                     "universe: docs/string-literals-in-the-IDL.md is normative, the walker keeps a backslash pair before it looks for an "
+                     "escaped delimiter (LexLit.tla WalkLit / Plain), so such contents cannot be written in both quote styles",
                      "totality over arbitrary byte strings is explored only around the TLC documents (token mutants, byte pass) and on the "
                      "depth-scaled family; time bound 20 s per document, blow-up = more than 3x per doubling twice in a row"],
         trusted=["TLC", "lib/idl.py tokens()", "harness/cmd/inproc/lexical.go (projection of parser.Thrift)",
